@@ -248,7 +248,7 @@ def _execute(cfg, plan, repeat, simcfg, seed, want_ops=False):
         out = {"outcome": outcome, "exc": None if exc is None else
                f"{type(exc).__name__}: {str(exc)[:200]}",
                "sim": sim, "store": store, "k_call": store.opn,
-               "open_writes_at_end": dict(store.open_writes)}
+               "open_writes_at_end": dict(store.open_writes_at_crash)}
         out["retried"] = sim.counters.get("retry_exc", 0)
         if want_ops:
             out["ops"] = list(store.ops)
